@@ -104,6 +104,7 @@ func checkReadSeeker(fl *failer, rs io.ReadSeeker, l *layout, ops []Op, fs fault
 	var pos int64
 	backseek := false  // a successful seek moved the cursor backwards earlier in the history
 	afterFault := false // a fault was delivered earlier in the history
+	var rbuf []byte
 	note := func(format string, a ...any) {
 		if len(st.trace) < 200 {
 			st.trace = append(st.trace, fmt.Sprintf(format, a...))
@@ -194,7 +195,14 @@ func checkReadSeeker(fl *failer, rs io.ReadSeeker, l *layout, ops []Op, fs fault
 			if n < 0 {
 				n = 0
 			}
-			p := make([]byte, n)
+			if rbuf == nil {
+				rbuf = getBuf()
+				defer putBuf(rbuf)
+			}
+			if cap(rbuf) < n {
+				rbuf = make([]byte, n)
+			}
+			p := rbuf[:n]
 			avail := L - pos
 			if avail < 0 {
 				avail = 0
@@ -345,6 +353,18 @@ func judgeFuse(l *layout, off int64, size int, errno syscall.Errno, data []byte,
 
 var devNull *os.File
 
+// scratch buffers are recycled between cases (clearing fresh 128 KiB buffers dominated the cost)
+const bufSize = 256 << 10
+
+var bufPool = sync.Pool{New: func() any { return make([]byte, bufSize) }}
+
+func getBuf() []byte { return bufPool.Get().([]byte) }
+func putBuf(b []byte) {
+	if cap(b) == bufSize {
+		bufPool.Put(b[:bufSize]) //nolint
+	}
+}
+
 type fuseVerdict struct {
 	idx      int
 	sig, msg string
@@ -473,6 +493,9 @@ func runFuse(fl *failer, c Case, l *layout, idx desync.Index) (nontrivial bool) 
 		go func(queue []int) {
 			defer wg.Done()
 			me := goid()
+			dbuf, bbuf := getBuf(), getBuf()
+			defer putBuf(dbuf)
+			defer putBuf(bbuf)
 			<-start
 			for _, i := range queue {
 				r := c.Fuse[i]
@@ -490,14 +513,17 @@ func runFuse(fl *failer, c Case, l *layout, idx desync.Index) (nontrivial bool) 
 							res.panicky = p
 						}
 					}()
-					dest := make([]byte, size)
+					if cap(dbuf) < size {
+						dbuf, bbuf = make([]byte, size), make([]byte, size)
+					}
+					dest := dbuf[:size]
 					for j := range dest {
 						dest[j] = 0xA5
 					}
 					rr, errno := reader.Read(ctx, handles[h], dest, off)
 					res.errno = errno
 					if errno == 0 && rr != nil {
-						b, st := rr.Bytes(make([]byte, size))
+						b, st := rr.Bytes(bbuf[:size])
 						if st != fuse.OK {
 							res.errno = syscall.Errno(st)
 						}
